@@ -78,5 +78,36 @@ kf("C10", "C10-spirv-void-call-value", "a value-less call used as an argument (`
 kf("C10", "C10-spirv-consume-block-nil", "code after a `continue`/`break` at the end of a loop body construct (token edit of loops_all_forms) leaves no current block: nil dereference in consumeBlock",
    ["C10|panic|*|runtime error: invalid memory address or nil pointer dereference|spirv/internal/codegen.(*ExpressionEmitter).consumeBlock"])
 
+# ---------------------------------------------------------------- C02 (SPIR-V structure)
+kf("C02", "C02-std140-matrix-stride", "matCx2 (and f16 matrix) members of Uniform blocks get MatrixStride 8 (or 4): Vulkan's extended (std140) layout requires 16 without the uniformBufferStandardLayout feature",
+   ["C02|layout-align-std140|*|corpus/access|*", "C02|layout-align-std140|*|corpus/f16|*", "C02|layout-align-std140|*|corpus/globals|*", "C02|layout-align-std140|*|corpus/hlsl_mat_cx2|*", "C02|layout-align-std140|*|corpus/ptr-deref-test|*"])
+kf("C02", "C02-transpose-result-type", "transpose()/determinant() results are typed as the argument (see C09-math-result-type): OpCompositeExtract on the transposed value walks the wrong type",
+   ["C02|type-composite-extract|*|builtin_function_sampler|*"])
+kf("C02", "C02-ptr-private-access-chain-class", "member access through a ptr<private, composite> parameter emits OpAccessChain with a Function-class result pointer on a Private-class base",
+   ["C02|type-access-chain|*storage class*|pointer_params_compound_incdec|*"])
+kf("C02", "C02-binding-array-capability", "an unsized binding_array<T> becomes a run-time descriptor array without declaring capability RuntimeDescriptorArray",
+   ["C02|capability|*RuntimeDescriptorArray*|corpus/binding-arrays|*"])
+
+# ---------------------------------------------------------------- C09 (IR contract)
+kf("C09", "C09-math-result-type", "transpose(m) and determinant(m) record the argument's type as their result type (resolveMathType has no case for them)",
+   ["C09|expr-type|*ir.ExprMath*|F1/call/transpose/*", "C09|expr-type|*ir.ExprMath*|F1/call/determinant/*", "C09|expr-type|*|builtin_function_sampler"])
+kf("C09", "C09-splat-empty-resolution", "a Splat whose vecN type is not in the type arena is recorded with an empty TypeResolution",
+   ["C09|expr-type|*(ir.ExprSplat): recorded type unusable: empty type resolution*|corpus/*"])
+kf("C09", "C09-abstract-types-var-stale-types", "after `var b: vec2<u32> = vec2(44,45); b = vec2(44,45);` the concretised literals/Compose/Splat keep their first recorded (i32/f32) types in ExpressionTypes",
+   ["C09|expr-type|*|corpus/abstract-types-var"])
+kf("C09", "C09-abstract-float-survives", "`m * 2.0` with m a matrix leaves a LiteralAbstractFloat in the function arena (and the Binary then has an abstract operand)",
+   ["C09|no-abstract|*LiteralAbstractFloat*|corpus/matrices", "C09|expr-type|*abstract-float*|corpus/matrices", "C09|expr-operand|*abstract-float*|corpus/matrices",
+    "C09|no-abstract|*LiteralAbstractFloat*|matrices_and_arrays_in_buffers", "C09|expr-type|*abstract-float*|matrices_and_arrays_in_buffers", "C09|expr-operand|*abstract-float*|matrices_and_arrays_in_buffers"])
+kf("C09", "C09-override-init-type", "`override o: u32 = 0;` keeps an f32 literal as the override's initialiser",
+   ["C09|expr-type|override*|corpus/overrides"])
+kf("C09", "C09-literal-in-emit-range", "literals created while lowering nested constructor/swizzle expressions sit inside an Emit range (literals are never emitted)",
+   ["C09|emit-never|*(ir.Literal) is covered by*|*"])
+kf("C09", "C09-const-array-element-store", "`out[0] = positions[1]` with positions a module const array of vec4 stores the scalar component instead of the vector (mesh-shader.wgsl): store type mismatch",
+   ["C09|store-type|*|corpus/mesh-shader"])
+kf("C09", "C09-cmpxchg-result-member-emit", "members of the atomicCompareExchangeWeak result used in a later statement are not covered by a dominating Emit",
+   ["C09|emit-dominates|*|atomics_workgroup_barriers"])
+kf("C09", "C09-emit-after-return", "an Emit statement is left after a Return in the same block when an entry point ends with `return;` followed by the harness's trailing store (F2 entry position)",
+   ["C09|after-terminator|*ir.StmtEmit follows ir.StmtReturn*|F2/entry"])
+
 json.dump(K, open("known_findings.json", "w"), indent=1)
 print(len(K), "entries")
